@@ -151,6 +151,12 @@ def k_events(max_events=3, files=2, nstamps=5, ndata=3):
             JobRunner._aggregate_events(fake)
             ex.check(not os.path.exists(os.path.join(out, "job-outputs", "j0", "events.log")),
                      "C20: job event file not consumed by the node aggregation")
+            # in local mode the same process goes on logging after the runner's aggregation (completion events)
+            if ex.flag("event_after_aggregation"):
+                ev = StructuredLogEvent(source="late", category="Cat", name="alpha", message="after", timestamp=STAMPS[-1], n=1)
+                logged.append(dict(name="alpha", timestamp=STAMPS[-1], source="late", message="after", data=dict(n=1), category="Cat"))
+                log_event(ev)
+                close_event_logging()
         finally:
             logging.disable(logging.CRITICAL)
             lg = logging.getLogger("_jade_event")
